@@ -26,6 +26,7 @@ type Explored struct {
 	Ks      []int   `json:"ks"`
 	Outs    []RecoverOut `json:"outs"`
 	Pre     []QBucket    `json:"pre,omitempty"`
+	Post    []QBucket    `json:"post,omitempty"`
 	Double  []DoubleCrash `json:"double,omitempty"` // C34: crashes during the recovery of selected images
 	PL      []PLObs       `json:"pl,omitempty"`     // C04: power-loss images
 	Err     string  `json:"err,omitempty"`
@@ -108,6 +109,11 @@ func optsFor(prop string, tier string, i int, r *rng.Rand) GenOpts {
 		o.Clean = i%3 != 2
 		if i%2 == 0 {
 			o.Mode = "bg" // the real SyncWAL goroutine and Shutdown()
+			// every other background history requests the shutdown while the last requests are still queued
+			// (not yet flushed); half of those use variable-length buckets only (a group re-applied by a restart
+			// shows as duplicates there)
+			o.Pending = i%4 == 0
+			o.OnlyVariable = i%8 == 0
 		} else {
 			o.Ckpt = true // synchronous mode with explicit checkpoints/rotations, then the shutdown branch's two calls
 		}
@@ -161,7 +167,7 @@ func exploreHistory(h History, dir string, tier string, workers int, kind string
 			}
 		}
 	}
-	ex.Ops, ex.Exit, ex.Pre = rec.Ops, rec.Exit, rec.Pre
+	ex.Ops, ex.Exit, ex.Pre, ex.Post = rec.Ops, rec.Exit, rec.Pre, rec.Post
 	root := filepath.Join(dir, "root")
 	if a, err := filepath.Abs(root); err == nil {
 		root = a
@@ -387,7 +393,7 @@ func DriverMain(prop string, args []string) int {
 			case "C05":
 				fl = append(h.OracleC01(d, o), h.OracleC03(d, o)...)
 			case "C35":
-				fl = h.OracleC35(d, o, ex.Pre)
+				fl = h.OracleC35(d, o, ex.Pre, ex.Post)
 			case "C34", "C04":
 				fl = h.OracleC01(d, o)
 			}
